@@ -329,7 +329,10 @@ def emit_site(src: Source, site: dict, mode: str):
     text = (src.repo / site["file"]).read_text()
     node = select(fn, tuple(site["select"]))
     for step in site.get("path", ()):  # descend into the selected expression: AST field names / list indices
-        node = node[step] if isinstance(step, int) else getattr(node, step)
+        try:
+            node = node[step] if isinstance(step, int) else getattr(node, step)
+        except (AttributeError, IndexError, TypeError) as e:
+            raise Unsupported(f"path {site['path']} does not exist in `{ast.unparse(select(fn, tuple(site['select'])))[:80]}`: {e}")
     inline = {}
     for var, sel in site.get("inline", {}).items():
         inline[var] = select(fn, tuple(sel))
@@ -375,6 +378,11 @@ def yaml_scalar(text: str, dotted: str) -> str:
 
 
 def emit_table(src: Source, site: dict, mode: str):
+    if site["kind"] == "yaml_string":  # string-valued default of the configuration file (e.g. `fft: fftw`)
+        val = yaml_scalar((src.repo / site["file"]).read_text(), site["var"])
+        esc = val.replace("\\", "\\\\").replace('"', '\\"')
+        return (f"/-- {site['file']} `{site['var']}: {val}` -/\ndef {site['name']} : String :=\n  \"{esc}\"\n",
+                {"value": val, "sha": hashlib.sha256(val.encode()).hexdigest()[:16]})
     if site["kind"] == "yaml_scalar":  # numeric default of the configuration file, read as the exact decimal written
         val = yaml_scalar((src.repo / site["file"]).read_text(), site["var"])
         try:
